@@ -292,6 +292,9 @@ def _gen_gap(ch, excl):
 
 def _gen_stmt(ch, excl):
     toks = [_gen_token(ch, excl) for _ in range(ch.count(1, 6))]
+    if "include_variable" not in excl and ch.bool(1, 12):
+        # a variable called `include` (Fortran has no reserved words): an assignment, not an INCLUDE line
+        toks = [["id", "include", None], ["p", "="]] + toks
     gaps = [_gen_gap(ch, excl) for _ in range(len(toks) - 1)]
     return {"toks": toks, "gaps": gaps, "semi": ch.choice(["; ", ";", " ; ", "; ; "])}
 
